@@ -32,6 +32,49 @@ PROPS_ALL = {
     },
 }
 
+
+ASSUME_CACHE = [
+    "weigher and hasher are pure functions (the weigher returns a u32, the hasher a u64)",
+    "clock readings are non-decreasing (the clock is part of the run state of the models; std Instant is monotonic)",
+    "Instant + Duration cannot overflow for durations <= 1000 years (what ensure_expirations_or_panic establishes)",
+    "histories shorter than 2^24 operations (single-threaded cache) / 2^18 (concurrent cache) for the no-overflow clauses",
+    "the concurrent cache is modelled in its sequential regime (one thread; implicit housekeeper and explicit sync); interleavings are covered by the Conc models where claimed",
+]
+
+NOTE_CACHE = ("Trusted: Coq kernel; extraction (ExtrOcamlBasic only) and extract/driver.ml; the Rust harness, the cfg-guarded "
+              "snapshot hooks in /repo, canonicalisation and tools/*.py (differential testing on sampled histories: "
+              "coverage measured in the evidence); tools/gen_consts.py. The models are hand transcriptions of "
+              "src/unsync/cache.rs and src/sync/{cache,base_cache}.rs (+ deques, entry_info, housekeeper); std HashMap, "
+              "dashmap, crossbeam-channel, Rc/Arc/Box are modelled, not verified. ")
+
+
+def cache_prop(pid, technique, text, note_extra="", assumptions=None):
+    return {
+        "prop_file": f"theories/Properties/{pid}.v",
+        "module": "p_cache",
+        "trusted_base": TB_COMMON,
+        "technique": technique,
+        "level_text": text,
+        "level_note": NOTE_CACHE + note_extra,
+        "assumptions": assumptions or ASSUME_CACHE,
+    }
+
+
+TIE = (" Tie to /repo on every run: the extracted models and the real caches (built from the working tree with cfg-guarded "
+       "snapshot hooks, mock clock, deterministic hashers) run the same generated histories; outputs and the relevant slice of "
+       "internal state are compared after every operation, and the property's oracle (the theorem statement evaluated on "
+       "implementation traces) searches for a concrete failing history.")
+
+PROPS_ALL["C01"] = cache_prop(
+    "C01", "Coq proof (induction over histories with a simulation invariant against a history-level reference state) + lock-step correspondence + reference-map oracle",
+    "Theorems for ALL histories, configurations, hashers, weighers, clock patterns and sync placements: every answer of get/contains_key/iteration of the single-threaded cache model (UModel) and of the concurrent cache model in its sequential regime (SModel) is justified by the reference state = most recent insert of the key not invalidated since (by key, predicate, or invalidate_all at a strictly later reading)." + TIE)
+PROPS_ALL["C05"] = cache_prop(
+    "C05", "Coq proof (same simulation invariant; TTL clause of `justified`) + lock-step correspondence + reference-map oracle with deadlines",
+    "Theorems for all histories/configurations/clock patterns (ttl = 0, exact deadlines, combined with tti) for both cache models: any visible answer at reading `now` has now < (reading of the latest insert/update of that key) + ttl; an update restarts the interval, reads do not." + TIE)
+PROPS_ALL["C06"] = cache_prop(
+    "C06", "Coq proof (same simulation invariant; TTI clause of `justified`) + lock-step correspondence + reference-map oracle with deadlines",
+    "Theorems for all histories/configurations for both cache models: any visible answer at reading `now` has now < a + tti where a is the reading of the most recent insert, update or successful get; contains_key, iteration, sync and misses never enter a (on the concurrent cache a late-applied read can only move last_accessed up to a recorded successful get)." + TIE)
+
 # Only properties whose whole pipeline is in place are claimed in MANIFEST.json.
-CLAIMED = ["C14"]
+CLAIMED = ["C14", "C01", "C05", "C06"]
 PROPS = {k: v for k, v in PROPS_ALL.items() if k in CLAIMED}
